@@ -266,6 +266,26 @@ impl<'r, TC: ModelCfg> HistVisitor<TC> for V6<'r> {
                                 c.epoch = de;
                                 judge::<TC>(self.rep, "epoch_shifted", label, c, &eh, &truth, &hist, json!({"claimed_version": v, "epoch": de}));
                             }
+                            // values that never were this label's: the distinguished empty value (akd's TOMBSTONE), the other
+                            // alphabet values, a long one — alone, with the matching nonce, with an empty nonce, with another epoch
+                            for cv in [vec![], b"x".to_vec(), b"y".to_vec(), b"forged".to_vec(), long_value()] {
+                                if cv == val {
+                                    continue;
+                                }
+                                let name = if cv.is_empty() { "empty_value" } else { "foreign_value" };
+                                let mut c = cand.clone();
+                                c.value = AkdValue(cv.clone());
+                                judge::<TC>(self.rep, &format!("value_replaced/{name}"), label, c.clone(), &eh, &truth, &hist, json!({"claimed_version": v, "freshness": fname}));
+                                let mut c2 = c.clone();
+                                c2.commitment_nonce = srv.nonce(label, v, &cv);
+                                judge::<TC>(self.rep, &format!("value_replaced/{name}+nonce"), label, c2, &eh, &truth, &hist, json!({"claimed_version": v, "freshness": fname}));
+                                let mut c3 = c.clone();
+                                c3.commitment_nonce = vec![];
+                                judge::<TC>(self.rep, &format!("value_replaced/{name}+empty_nonce"), label, c3, &eh, &truth, &hist, json!({"claimed_version": v, "freshness": fname}));
+                                let mut c4 = c.clone();
+                                c4.epoch = if ep > 1 { ep - 1 } else { ep + 1 };
+                                judge::<TC>(self.rep, &format!("value_replaced/{name}+epoch"), label, c4, &eh, &truth, &hist, json!({"claimed_version": v, "freshness": fname}));
+                            }
                         }
                     }
                 }
